@@ -319,7 +319,7 @@ def main(run):
                             force_options=["crop"] if i % 3 else ["tmax_boundary"]))
     for i in run.mine({"quick": 80, "thorough": 2000}[run.tier]):
         k_cli(run, run.case("cli", 10**6 + i, tool="traj", fmt=["tum", "euroc"][i % 2],
-                            force={"use_ref": True, "sync": True, "merge": False, "downsample": False, "motion_filter": False}))
+                            force={"use_ref": True, "sync": True, "merge": i % 3 == 0, "downsample": False, "motion_filter": False}))
     run.need("concurrent rounds: time association", "evo_traj runs with synchronisation to a reference judged", "evo_ape / evo_rpe runs with time offsets and cropping judged", "assoc: pair within max_diff", "assoc: paired with a nearest counterpart",
              "assoc: every uncontested in-range pose is paired",
              "assoc: increasing order, no pose used twice", "inputs unmodified",
